@@ -345,7 +345,7 @@ pub fn run(args: &Args) -> i32 {
         (70, 900),
     )
     .with_min_nontrivial(20);
-    let threads = 16usize;
+    let threads = n_threads();
     let max_cases: u64 = args.tier.pick(4000, 400_000);
     let queries_per_table = args.tier.pick(24, 60);
     let max_rows = args.tier.pick(300, 1500);
